@@ -11,6 +11,8 @@ THEOREMS = [
     "Cog.Sem.C01_pass_widening_plain_partial", "Cog.Sem.C01_source_roundtrip_plain_partial",
     "Cog.Sem.C01_source_roundtrip_type_plain_partial", "Cog.Sem.C01_chain_keeps_plain",
     "Cog.Sem.Src.widen_chain", "Cog.Sem.Src.nr_widen", "Cog.Sem.Src.PrefixEnumValues_den",
+    "Cog.Sem.C01_pass_widening_nullable_partial", "Cog.Sem.C01_source_roundtrip_nullable_partial",
+    "Cog.Sem.Src.widen_chainN", "Cog.Sem.Src.nr_widenN", "Cog.Sem.Src.null_widen", "Cog.Sem.Src.xden_mono",
 ]
 
 
@@ -75,7 +77,8 @@ def pass_widening_tie(c, hb):
     cases, case_line = {}, {}
     st = {"documents": 0, "valid": 0, "plain_documents": 0, "plain_valid": 0, "plain_valid_in_srcDen": 0,
           "plain_in_srcDen": 0, "plain_in_srcDen_and_den_real": 0, "nonplain_valid": 0, "nonplain_valid_in_srcDen": 0,
-          "nonplain_valid_in_srcDen_and_den_real": 0, "invalid": 0, "invalid_in_srcDen": 0, "bad_replies": 0}
+          "nonplain_valid_in_srcDen_and_den_real": 0, "invalid": 0, "invalid_in_srcDen": 0, "bad_replies": 0,
+          "plain_only_documents": 0, "plain_only_in_srcDen": 0}
     why, whyx, notplain = {}, {}, {}
     b_fail, unsound, m_fail = [], [], []
     for r in rows:
@@ -95,12 +98,16 @@ def pass_widening_tie(c, hb):
         cid = r[0].split(" ")[3]
         valid = "valid=true" in r[1]
         if cid not in cases:
-            cases[cid] = d["plain"] == "true"
-            if d["plain"] != "true":
-                notplain[d["notplain"]] = notplain.get(d["notplain"], 0) + 1
+            cases[cid] = (d["plainN"] == "true", d["plain"] == "true")
+            if d["plainN"] != "true":
+                notplain[d["notplainN"]] = notplain.get(d["notplainN"], 0) + 1
         st["documents"] += 1
         st["valid" if valid else "invalid"] += 1
-        src, den, plain = d["src"] == "true", d["den"] == "true", d["plain"] == "true"
+        # "plain" below = the PROVED fragment PlainN (Plain + `T | null` pairs); Plain alone is counted apart
+        src, den, plain = d["src"] == "true", d["den"] == "true", d["plainN"] == "true"
+        if d["plain"] == "true":
+            st["plain_only_documents"] += 1
+            st["plain_only_in_srcDen"] += int(src)
         if src and not valid:
             st["invalid_in_srcDen"] += 1
             unsound.append((r, m))
@@ -133,22 +140,24 @@ def pass_widening_tie(c, hb):
                 "driver": m, "case": case_line.get(cid, ""), "how_to_replay": "harness c01-src seed=%d n=%d docs=%d faults=%d, case %s" % (c.seed, n, docs, faults, cid)}
     for r, m in b_fail[:3]:
         c.violation(payload("theorem-instance-fails-on-real-passes",
-                            "C01_pass_widening_plain_partial: Plain ∧ srcDen hold on the real pre-chain IR but the document is not in `den` of the REAL post-chain IR (pass model and real pass disagree)", r, m))
+                            "C01_pass_widening_{plain,nullable}_partial: PlainN ∧ srcDen hold on the real pre-chain IR but the document is not in `den` of the REAL post-chain IR (pass model and real pass disagree)", r, m))
     for r, m in m_fail[:3]:
         c.violation(payload("theorem-instance-fails-on-model",
-                            "C01_pass_widening_plain_partial evaluated by the driver on the pass MODELS' output is false", r, m), found_input=False)
+                            "C01_pass_widening_{plain,nullable}_partial evaluated by the driver on the pass MODELS' output is false", r, m), found_input=False)
     for r, m in unsound[:3]:
         c.violation(payload("srcDen-accepts-invalid-document",
                             "srcDen accepts a document the schema language's own validator rejects (model of the source reading is unsound)", r, m))
-    nplain = len([1 for v in cases.values() if v])
-    c.oblige("c01-src (b): Plain ∧ srcDen ⇒ den on the REAL post-chain IR (%d documents of %d plain cases)" % (st["plain_in_srcDen"], nplain), not b_fail and not m_fail)
+    nplain = len([1 for v in cases.values() if v[0]])
+    nplain_only = len([1 for v in cases.values() if v[1]])
+    c.oblige("c01-src (b): PlainN ∧ srcDen ⇒ den on the REAL post-chain IR (%d documents of %d cases in the proved fragment, %d of them without `T | null`)" % (st["plain_in_srcDen"], nplain, nplain_only), not b_fail and not m_fail)
     c.oblige("c01-src (a'): srcDen accepts no document the reference validator rejects (%d invalid documents)" % st["invalid"], not unsound)
     c.oblige("c01-src is not vacuous (plain cases, documents in srcDen, fault documents)", nplain >= 10 and st["plain_in_srcDen"] >= 100 and st["invalid"] >= 100,
              "plain cases %d, plain documents in srcDen %d, invalid documents %d" % (nplain, st["plain_in_srcDen"], st["invalid"]))
     c.count("c01-src", len(rows), [r[0] for r in rows if r[0].startswith("srcden ") and r[0].count("(") >= 6],
             samples=[{"stream": "c01-src", "request": r[0][:400], "impl": r[1][:200], "oracle": "ok"} for r in rows if r[0].startswith("srcden ")][:2])
     c.cov["disagreements_checked"] += st["plain_in_srcDen"] + st["invalid"]
-    c.cov["pass_widening"] = dict(st, cases=len(cases), plain_cases=nplain, not_plain_first_construct=notplain,
+    c.cov["pass_widening"] = dict(st, cases=len(cases), plain_cases=nplain, plain_only_cases=nplain_only, not_plain_first_construct=notplain,
+                                  legend="plain_* = the proved fragment PlainN (Plain + two-branch `T | null`); plain_only_* = Plain",
                                   plain_valid_not_in_srcDen_den_exclusions=why, plain_valid_not_in_srcDen_other=whyx,
                                   rate_a="%d/%d" % (st["plain_valid_in_srcDen"], st["plain_valid"]),
                                   rate_b="%d/%d" % (st["plain_in_srcDen_and_den_real"], st["plain_in_srcDen"]))
